@@ -9,4 +9,6 @@ package file
 
 // A single-block reader's offset is never negative (Seek rejects such targets before storing).
 //@ typeinv file.singleNodeReader: 0 <= self.offset
-//@ typeinv file.shardNodeReader: 0 <= self.offset
+
+//@ func (*file.shardNodeFile).linkSize
+//@ requires 0 <= position
